@@ -490,32 +490,63 @@ def _decide(mod, desc, opts, res, rlimit, V, ctx, claims, exc):
                 res['notes'].append(f'{u.label}: sat witness did not reproduce concretely ({ok})')
 
 
+_CVC5_SCRIPT = r"""
+import sys, cvc5
+text = open(sys.argv[1]).read()
+slv = cvc5.Solver()
+slv.setOption('tlimit-per', sys.argv[2])
+slv.setLogic('QF_NRA')
+parser = cvc5.InputParser(slv)
+parser.setStringInput(cvc5.InputLanguage.SMT_LIB_2_6, text, 'q')
+sm = parser.getSymbolManager()
+result = 'unknown'
+while True:
+    cmd = parser.nextCommand()
+    if cmd.isNull():
+        break
+    o = str(cmd.invoke(slv, sm)).strip()
+    if o in ('sat', 'unsat', 'unknown'):
+        result = o
+print('CVC5RESULT', result)
+"""
+
+
 def _cvc5_verdict(z3solver, timeout_ms=20000):
-    """re-decide the assertions of a z3 solver with cvc5 (Python API); 'sat' | 'unsat' | 'unknown' | 'n/a'."""
-    try:
-        import cvc5
-    except ImportError:
-        return 'n/a'
+    """
+    Re-decide the assertions of a z3 solver with cvc5: 'sat' | 'unsat' | 'unknown' | 'n/a'.
+    cvc5 runs in a CHILD PROCESS that is killed after a hard wall-clock limit: its own time limit is not
+    honoured inside big-number arithmetic (a worker once spun for an hour in gmp).
+    """
+    import subprocess
+    import sys
+    import tempfile
     try:
         text = z3solver.to_smt2()
-        slv = cvc5.Solver()
-        slv.setOption('tlimit-per', str(timeout_ms))
-        slv.setLogic('QF_NRA')
-        parser = cvc5.InputParser(slv)
-        parser.setStringInput(cvc5.InputLanguage.SMT_LIB_2_6, text, 'q')
-        sm = parser.getSymbolManager()
-        result = None
-        while True:
-            cmd = parser.nextCommand()
-            if cmd.isNull():
-                break
-            out = cmd.invoke(slv, sm)
-            o = str(out).strip()
-            if o in ('sat', 'unsat', 'unknown'):
-                result = o
-        return result or 'unknown'
-    except Exception as e:  # noqa
+    except Exception:
         return 'n/a'
+    if len(text) > 400_000:
+        return 'n/a'
+    path = None
+    try:
+        with tempfile.NamedTemporaryFile('w', suffix='.smt2', delete=False) as f:
+            f.write(text)
+            path = f.name
+        p = subprocess.run([sys.executable, '-c', _CVC5_SCRIPT, path, str(timeout_ms)], capture_output=True, text=True,
+                           timeout=timeout_ms / 1000 + 15)
+        for line in p.stdout.splitlines():
+            if line.startswith('CVC5RESULT'):
+                return line.split()[1]
+        return 'n/a'
+    except subprocess.TimeoutExpired:
+        return 'unknown'
+    except Exception:
+        return 'n/a'
+    finally:
+        if path:
+            try:
+                os.unlink(path)
+            except OSError:
+                pass
 
 
 def _fidelity(mod, desc, V, ctx, rlimit):
